@@ -33,6 +33,23 @@ pub enum Alu {
     Mul,
     Div,
     Rem,
+    // instructions of RV64IM that the backend does not emit today but a change might: they are
+    // given their architectural meaning so that such a change is judged, not refused
+    Addw,
+    Subw,
+    Mulw,
+    Divw,
+    Remw,
+    Divu,
+    Remu,
+    And,
+    Or,
+    Xor,
+    Slt,
+    Sltu,
+    Sll,
+    Srl,
+    Sra,
 }
 
 #[derive(Clone, Copy, Debug, PartialEq, Eq)]
@@ -181,13 +198,28 @@ pub fn parse(text: &str) -> Result<Program, String> {
                         Ins::Addi(reg(tok[1])?, reg(tok[2])?, imm(tok[3])?)
                     }
                 }
-                "SUB" | "MUL" | "DIV" | "REM" => {
+                "SUB" | "MUL" | "DIV" | "REM" | "ADDW" | "SUBW" | "MULW" | "DIVW" | "REMW" | "DIVU" | "REMU" | "AND" | "OR" | "XOR" | "SLT" | "SLTU" | "SLL" | "SRL" | "SRA" => {
                     want(3)?;
                     let op = match tok[0] {
                         "SUB" => Alu::Sub,
                         "MUL" => Alu::Mul,
                         "DIV" => Alu::Div,
-                        _ => Alu::Rem,
+                        "REM" => Alu::Rem,
+                        "ADDW" => Alu::Addw,
+                        "SUBW" => Alu::Subw,
+                        "MULW" => Alu::Mulw,
+                        "DIVW" => Alu::Divw,
+                        "REMW" => Alu::Remw,
+                        "DIVU" => Alu::Divu,
+                        "REMU" => Alu::Remu,
+                        "AND" => Alu::And,
+                        "OR" => Alu::Or,
+                        "XOR" => Alu::Xor,
+                        "SLT" => Alu::Slt,
+                        "SLTU" => Alu::Sltu,
+                        "SLL" => Alu::Sll,
+                        "SRL" => Alu::Srl,
+                        _ => Alu::Sra,
                     };
                     Ins::Op(op, reg(tok[1])?, reg(tok[2])?, reg(tok[3])?)
                 }
@@ -390,6 +422,28 @@ fn alu(op: Alu, a: u64, b: u64) -> u64 {
                 (x % y) as u64
             }
         }
+        // word forms: operate on the low 32 bits, sign-extend the 32-bit result
+        Alu::Addw => (a as i32).wrapping_add(b as i32) as i64 as u64,
+        Alu::Subw => (a as i32).wrapping_sub(b as i32) as i64 as u64,
+        Alu::Mulw => (a as i32).wrapping_mul(b as i32) as i64 as u64,
+        Alu::Divw => {
+            let (p, q) = (a as i32, b as i32);
+            (if q == 0 { -1i32 } else if p == i32::MIN && q == -1 { i32::MIN } else { p / q }) as i64 as u64
+        }
+        Alu::Remw => {
+            let (p, q) = (a as i32, b as i32);
+            (if q == 0 { p } else if p == i32::MIN && q == -1 { 0 } else { p % q }) as i64 as u64
+        }
+        Alu::Divu => if b == 0 { u64::MAX } else { a / b },
+        Alu::Remu => if b == 0 { a } else { a % b },
+        Alu::And => a & b,
+        Alu::Or => a | b,
+        Alu::Xor => a ^ b,
+        Alu::Slt => (x < y) as u64,
+        Alu::Sltu => (a < b) as u64,
+        Alu::Sll => a << (b & 63),
+        Alu::Srl => a >> (b & 63),
+        Alu::Sra => (x >> (b & 63)) as u64,
     }
 }
 
@@ -492,7 +546,7 @@ pub fn run(prog: &Program, args: &[i64], cfg: &EmuConfig) -> EmuResult {
             Ins::Op(op, d, a, b) => {
                 let (x, dx) = m.get(*a);
                 let (y, dy) = m.get(*b);
-                if matches!(op, Alu::Div | Alu::Rem) && !dy {
+                if matches!(op, Alu::Div | Alu::Rem | Alu::Divw | Alu::Remw | Alu::Divu | Alu::Remu) && !dy {
                     return Machine::viol(ViolationKind::Poison, "division by an undefined value".into());
                 }
                 m.set(*d, alu(*op, x, y), dx && dy);
